@@ -37,48 +37,52 @@ def expected_bits(s, bits, b):
     return bits, None
 
 
-def run_seq(ctx, s, mod, dem, bits, cell, via, layout):
+def run_seq(ctx, s, mod, dem, bits, cell, via, layout, reset=True, replay=None):
     """bits: np array (L,) or (B,L)."""
     import torch
     b = mc.bits_per_symbol(s)
-    mc.reset(mod, dem)
+    if reset:
+        mc.reset(mod, dem)
     x = torch.from_numpy(bits.astype(np.float32))
     case = {"scheme": s, "bits": bits.astype(int).tolist(), "via_registry": via}
+    chk = CHK
+    if replay is not None:
+        chk, case = replay[0], {**replay[1]}
     nsym = bits.shape[-1] // b
     pi4_index_mode = s["scheme"] == "pi4qpsk" and bits.ndim == 1
     if pi4_index_mode and bits.shape[0] <= 4:
         # a 1-D input of <= 4 values < 4 is documented as symbol indices: feed indices instead of bits
         idx = (bits.reshape(-1, 2) @ np.array([2, 1])).astype(np.int64)
         x = torch.from_numpy(idx)
-    ok, y = ctx.call(lambda: mod(x), "C05.modulate_raises", cell, case, checker=CHK)
+    ok, y = ctx.call(lambda: mod(x), "C05.modulate_raises", cell, case, checker=chk)
     if not ok:
         return
     if s["scheme"] == "identity":
         nsym = bits.shape[-1]
     if not ctx.check(y.shape[-1] == nsym and tuple(y.shape[:-1]) == tuple(bits.shape[:-1]), "C05.symbol_count", cell, case, list(y.shape), list(bits.shape[:-1]) + [nsym],
-                     "number of symbols is not bits / bits_per_symbol", CHK):
+                     "number of symbols is not bits / bits_per_symbol", chk):
         return
     if mc.kind(s) == "differential" and nsym < 2:
         return
-    ok, out = ctx.call(lambda: dem(y), "C05.demodulate_raises", cell, case, checker=CHK)
+    ok, out = ctx.call(lambda: dem(y), "C05.demodulate_raises", cell, case, checker=chk)
     if not ok:
         return
     out = out.detach().numpy()
     if pi4_index_mode:
         exp = (bits.reshape(-1, 2) @ np.array([2, 1])).astype(np.int64)
         good = out.shape == exp.shape and np.array_equal(out.astype(np.int64), exp)
-        ctx.check(good, "C05.roundtrip", cell, case, out.tolist(), exp.tolist(), "unbatched pi/4-QPSK demodulation does not return the transmitted symbol indices", CHK)
+        ctx.check(good, "C05.roundtrip", cell, case, out.tolist(), exp.tolist(), "unbatched pi/4-QPSK demodulation does not return the transmitted symbol indices", chk)
     else:
         exp, mask = expected_bits(s, bits, b)
         if out.shape != exp.shape:
             ctx.ev()
-            ctx.fail("C05.roundtrip_shape", cell, case, list(out.shape), list(exp.shape), "demodulated bit tensor has the wrong shape", CHK)
+            ctx.fail("C05.roundtrip_shape", cell, case, list(out.shape), list(exp.shape), "demodulated bit tensor has the wrong shape", chk)
             return
         diff = out != exp
         if mask is not None:
             diff = diff & mask
         ctx.check(not diff.any(), "C05.roundtrip", cell, case, out.astype(int).tolist() if out.size <= 64 else None, exp.astype(int).tolist() if exp.size <= 64 else None,
-                  "hard demodulation of the noiselessly modulated symbols differs from the input bits", CHK)
+                  "hard demodulation of the noiselessly modulated symbols differs from the input bits", chk)
     ctx.nontrivial(cell, via, bits.tobytes())
     ctx.cls("layout_" + layout)
     # the same bits as int64: the same symbols
@@ -91,7 +95,7 @@ def run_seq(ctx, s, mod, dem, bits, cell, via, layout):
             return
         ctx.ev()
         ctx.check(tuple(yi.shape) == tuple(y.shape) and bool(torch.allclose(yi.to(torch.complex64) if not yi.is_complex() else yi, y.to(torch.complex64) if not y.is_complex() else y)),
-                  "C05.dtype_independent", cell, {**case, "dtype": "int64"}, None, None, "modulating the same bits given as int64 gives other symbols", CHK)
+                  "C05.dtype_independent", cell, {**case, "dtype": "int64"}, None, None, "modulating the same bits given as int64 gives other symbols", chk)
 
 
 def check_case(ctx, cell, case):
@@ -161,6 +165,33 @@ def unit_scheme(ctx, schemes, n_gen):
             ctx.sample({"scheme": s, "bits_per_symbol": b})
 
 
+def replay_eval_streams(ctx, cell, case):
+    unit_eval_streams(ctx, only=case["scheme"])
+
+
+def unit_eval_streams(ctx, only=None):
+    """Schemes with memory, evaluation mode, ONE state reset, then several round trips of odd and even lengths on the same objects without
+    another reset: in evaluation mode no state is carried from call to call, so every round trip must return its bits."""
+    rng = np.random.RandomState(ctx.seed + 41)
+    for s in mc.all_schemes():
+        if mc.kind(s) == "memoryless" or (only is not None and s != only):
+            continue
+        b = mc.bits_per_symbol(s)
+        mod, dem = mc.build(s)
+        for m in (mod, dem, getattr(dem, "modulator", None)):
+            if m is not None:
+                m.eval()
+        mc.reset(mod, dem)
+        cell = {**s, "mode": "eval_no_reset_between_calls"}
+        for i, (B, L) in enumerate(((3, 7), (3, 8), (0, 5), (2, 6), (0, 3), (1, 9), (2, 4))):
+            shape = (L * b,) if B == 0 else (B, L * b)
+            if s["scheme"] == "pi4qpsk" and B == 0:
+                continue  # 1-D inputs of pi/4-QPSK are symbol indices for short inputs: covered by run_seq's own cases
+            bits = (rng.rand(*shape) < 0.5).astype(np.float32)
+            run_seq(ctx, s, mod, dem, bits, cell, False, "eval_stream", reset=False, replay=("c05:replay_eval_streams", {"scheme": s, "mode": "eval_no_reset_between_calls", "failing_call": i}))
+    ctx.sample({"mode": "eval_no_reset_between_calls", "lengths": [7, 8, 5, 6, 3, 9, 4]})
+
+
 def unit_cross_instance(ctx, family):
     """All option combinations of one scheme family live in ONE process and are used interleaved, in both orders:
     instances must not influence each other (module- or class-level caches keyed too coarsely would)."""
@@ -187,4 +218,5 @@ def units(tier, seed):
                        4 if s.get("order", 2) >= 64 or mc.kind(s) != "memoryless" else 1))
     for fam in ("psk", "qam", "pam", "dpsk", "qpsk", "oqpsk", "pi4qpsk"):
         us.append(Unit("cross_instance_" + fam, "c05:unit_cross_instance", {"family": fam}, 2))
+    us.append(Unit("eval_streams", "c05:unit_eval_streams", {}, 2))
     return us
